@@ -23,6 +23,7 @@ CONSTANTS
   MinSteps = 3
   MaxSteps = 3
   RationalOnly = FALSE
+  Twins = FALSE
   NeedDt = FALSE
   BindLeaves = FALSE
   EmitOn = TRUE
